@@ -453,20 +453,21 @@ func (g *tgen) tagFields(d *TypeDesc) {
 		default:
 			toks := wireTokens(&f.T)
 			f.Wire = toks[rapid.IntRange(0, len(toks)-1).Draw(g.t, "wire")]
-			if f.T.K == KPtr && (f.Wire == "fixed32" || f.Wire == "fixed64") {
-				base := f.T.Elem
-				for base.K == KPtr {
-					base = base.Elem
-				}
-				hit := f.Wire == "fixed32" && (base.K == KUint32 || base.K == KFloat32) || f.Wire == "fixed64" && (base.K == KUint64 || base.K == KFloat64)
-				if hit && g.o.NoFixedPtr {
-					g.o.excluded(g.o.ClassFixedPtr)
-					if base.K == KFloat32 || base.K == KFloat64 {
-						f.T = *base // keep the fixed tag, drop the pointer
-					} else {
-						f.Wire = "varint"
-					}
-				}
+		}
+		if FixedTagOnPointer(f) && g.o.NoFixedPtr {
+			g.o.excluded(g.o.ClassFixedPtr)
+			pt := &f.T
+			if pt.K == KSlice {
+				pt = pt.Elem
+			}
+			base := pt
+			for base.K == KPtr {
+				base = base.Elem
+			}
+			if base.K == KFloat32 || base.K == KFloat64 {
+				*pt = *base // keep the fixed tag, drop the pointer
+			} else {
+				f.Wire = "varint"
 			}
 		}
 	}
